@@ -83,7 +83,7 @@ type c16Row struct {
 	Crash  bool
 	Upload bool
 	Mode   string // on, local, off, garbage, missing
-	Token  string // absent, fresh, stale
+	Token  string // absent, fresh, stale (25 h old), ahead (dated 3 h ahead of the clock), almost (23.5 h old)
 	Dir    string // ok, uncreatable
 	Text   int    // which spelling of the mode file (see c16ModeTexts); 0 = the plain one
 	Start  int    // Config.UploadStartTime in days from now (0: not set)
@@ -119,7 +119,9 @@ func c16Model(r c16Row) (launch bool, uploadFlag bool) {
 	if r.Dir == "uncreatable" {
 		return false, false // the local directory cannot exist
 	}
-	token := r.Upload && r.Token != "fresh"
+	// a token younger than 24 hours blocks; one dated ahead of the clock (clock stepped back, file server
+	// with a fast clock) is not older than 24 hours either
+	token := r.Upload && r.Token != "fresh" && r.Token != "ahead" && r.Token != "almost"
 	return r.Crash || token, token
 }
 
@@ -191,9 +193,16 @@ func c16RunRow(t c16Fataler, base, exe string, r c16Row) {
 			os.MkdirAll(filepath.Join(tdir, "local"), 0777)
 			tok := filepath.Join(tdir, "local", "upload.token")
 			os.WriteFile(tok, nil, 0666)
-			if r.Token == "stale" {
+			switch r.Token {
+			case "stale":
 				old := time.Now().Add(-25 * time.Hour)
 				os.Chtimes(tok, old, old)
+			case "ahead":
+				at := time.Now().Add(3 * time.Hour)
+				os.Chtimes(tok, at, at)
+			case "almost":
+				at := time.Now().Add(-23*time.Hour - 30*time.Minute)
+				os.Chtimes(tok, at, at)
 			}
 		}
 	}
@@ -314,7 +323,7 @@ func c16AllRows() []c16Row {
 		for _, crash := range []bool{false, true} {
 			for _, up := range []bool{false, true} {
 				for _, mode := range []string{"on", "local", "off", "garbage", "missing"} {
-					for _, tok := range []string{"absent", "fresh", "stale"} {
+					for _, tok := range []string{"absent", "fresh", "stale", "ahead", "almost"} {
 						for v := 0; v < max(1, len(c16ModeTexts[mode])); v++ {
 							for _, st := range []int{0, 3, -3} {
 								if st != 0 && (!up || v != 0) {
